@@ -145,6 +145,9 @@ def gen_model_cfg(rng: random.Random, tb: dict, shock_prone=False) -> dict:
     }
     if rng.random() < 0.25:
         cfg["alpha_base"] = rng.choice([1.0, cfg["alpha_max"]])
+    if rng.random() < 0.15:
+        # the table's year is not 365 temporal units (weeks, months): accepted with a warning
+        cfg["year_factor"] = rng.choice([52, 12, 360])
     if rng.random() < 0.25:
         # parameters typed as Python ints where the value is integral (accepted by the constructors)
         for kk in ("alpha_base", "alpha_max"):
